@@ -343,6 +343,8 @@ fn cmd_sched(args: &Args) -> i32 {
                 "C03"
             } else if scenario == "kvs-batch-snapshot" && class.starts_with("held-cursor") {
                 "C07"
+            } else if class.starts_with("ledger-broken") {
+                "C04"
             } else {
                 property_of(scenario)
             };
